@@ -169,8 +169,12 @@ Definition rdata_eqb (a b : rdata) : bool :=
 Definition rr_eqb (a b : rr) : bool :=
   eqb_bytes (rr_name a) (rr_name b) && (rr_ttl a =? rr_ttl b) && rdata_eqb (rr_data a) (rr_data b).
 
+(** (Round 6: the authority section beyond the SOA flag, the additional
+    section and the TC flag are compared too; the question's case is compared
+    through [o_qname].) *)
 Definition resp_eqb (a b : resp) : bool :=
-  (rs_rcode a =? rs_rcode b) && eqb_list rr_eqb (rs_answer a) (rs_answer b) && Bool.eqb (rs_soa a) (rs_soa b).
+  (rs_rcode a =? rs_rcode b) && eqb_list rr_eqb (rs_answer a) (rs_answer b) && Bool.eqb (rs_soa a) (rs_soa b) &&
+  eqb_list rr_eqb (rs_ns a) (rs_ns b) && eqb_list rr_eqb (rs_extra a) (rs_extra b) && Bool.eqb (rs_tc a) (rs_tc b).
 
 (** Rule identities are not compared (among rules of equal priority the
     engine's choice depends on its index order); the addresses carried by
